@@ -246,6 +246,17 @@ pub fn with_observe(out: &mut Vec<Plan>, label: &str, profile: &Profile, levels:
     out.push(plan(&format!("{} + reading everything as an operation", label), p, levels, depth));
 }
 
+/// Price levels that coincide modulo 64 and modulo 65 536 (100, 164, 65 636): whatever indexes
+/// levels by a few bits of the price confuses exactly these.
+pub fn with_congruent_prices(out: &mut Vec<Plan>, label: &str, profile: &Profile, levels: usize, depth: usize) {
+    let mut p = profile.clone();
+    p.name = format!("{}@congruent-prices", p.name);
+    p.tick = 1;
+    p.prices = vec![100, 164, 65_636];
+    p.offgrid_prices = vec![];
+    out.push(plan(&format!("{}: prices 100, 164, 65636 (equal modulo 64 / 65536)", label), p, levels, depth));
+}
+
 pub fn with_bases(out: &mut Vec<Plan>, label: &str, profile: &Profile, levels: usize, depth: usize) {
     for (name, base) in base_states(profile) {
         let mut p = profile.clone();
@@ -361,12 +372,13 @@ pub fn c01(tier: &str) -> i32 {
     rp.modify_prices = true;
     rp.modify_vols = vec![1, 3];
     plans.push(plan("core + modify (re-priced orders match by the same rules)", rp.clone(), 3, if t { 5 } else { 4 }));
+    with_congruent_prices(&mut plans, "core + modify", &rp, 3, if t { 5 } else { 4 });
     {
         let mut ob = rp.clone();
-        ob.prices = vec![10, 11];
         ob.limit_vols = vec![2];
-        ob.market_vols = vec![1, 3];
-        with_observe(&mut plans, "two prices, re-pricing modifies", &ob, 3, if t { 6 } else { 5 });
+        ob.market_vols = vec![3];
+        ob.modify_vols = vec![];
+        with_observe(&mut plans, "three prices, re-pricing modifies", &ob, 3, if t { 6 } else { 5 });
     }
     let mut rpe = rp.clone();
     rpe.name = "core-repricing-events-tick3".into();
@@ -474,6 +486,7 @@ pub fn c02(tier: &str) -> i32 {
         }
     }
     let main = mk("views-tick1", 1, 10);
+    with_congruent_prices(&mut plans, "main", &main, 3, if t { 5 } else { 4 });
     {
         let mut ob = main.clone();
         ob.prices = vec![10, 11];
@@ -630,7 +643,9 @@ pub fn c03(tier: &str) -> i32 {
 
 pub fn c04(tier: &str) -> i32 {
     let mut out = Outcome::new("C04", tier, "model_checking");
-    let mon = Monitors { life: true, ..Default::default() };
+    // (views: "every other observable unchanged" is judged on a snapshot whose views must first of
+    // all be the book's own - a stale view that a redundant request happens to refresh shows here)
+    let mon = Monitors { life: true, views: true, ..Default::default() };
     let t = thorough(tier);
     let mut plans = Vec::new();
     let mut p = Profile::core("lifecycle", 1, 10);
@@ -755,9 +770,19 @@ pub fn c06(tier: &str) -> i32 {
     p2.modify_vols = vec![1, 2, 3];
     plans.push(plan("reduced alphabet, deeper", p2.clone(), 3, if t { 6 } else { 5 }));
     {
+        let mut cg = p2.clone();
+        cg.modify_vols = vec![1];
+        with_congruent_prices(&mut plans, "modify", &cg, 3, if t { 5 } else { 4 });
+    }
+    {
         let mut ob = p2.clone();
         ob.modify_vols = vec![1, 3];
         with_observe(&mut plans, "reduced alphabet", &ob, 3, if t { 6 } else { 5 });
+        let mut ob3 = p2.clone();
+        ob3.prices = vec![10, 11, 12];
+        ob3.modify_vols = vec![];
+        ob3.market_vols = vec![];
+        with_observe(&mut plans, "three prices, price-only modifies", &ob3, 3, if t { 6 } else { 5 });
     }
     let mut p3 = p.clone();
     p3.name = "modify-tick3-events".into();
